@@ -44,24 +44,28 @@ Proof.
   rewrite E. exact Hr.
 Qed.
 
-(* what N, R, L and the centre mask are bound to where the formulas are evaluated: the shape entries, the seeded
-   (centre fraction, acceleration) choice, the requested ACS size, the freshly built centre disc *)
+(* what N, R, L and the centre mask are, where the formulas are used: the translator executes each mask_func symbolically
+   and emits these lines only after checking the corresponding facts on the value trees (the shape entries, the seeded
+   (centre fraction, acceleration) choice, the requested ACS size handed to center_mask_func, the centre disc whose own
+   size is subtracted); the lemmas pin the wording, so that a translator that stops checking one of them is noticed *)
 From Coq Require Import String.
 Local Open Scope string_scope.
 Lemma random_bindings_pinned : random_bindings =
-  ["num_cols = shape[-2]"; "center_fraction, acceleration = self.choose_acceleration()";
-   "num_low_freqs = int(round(num_cols * center_fraction))"; "num_low_freqs = int(center_fraction)"].
+  ["N = shape[-2]"; "R = self.choose_acceleration()[1]";
+   "L = int(round((shape[-2] * self.choose_acceleration()[0]))) if self.choose_acceleration()[0] < 1.0 else int(self.choose_acceleration()[0])";
+   "ACS = center_mask_func(N, L)"].
 Proof. reflexivity. Qed.
 Lemma equi_bindings_pinned : equi_bindings =
-  ["num_cols = shape[-2]"; "center_fraction, acceleration = self.choose_acceleration()";
-   "num_low_freqs = int(round(num_cols * center_fraction))"; "num_low_freqs = int(center_fraction)"].
+  ["N = shape[-2]"; "R = self.choose_acceleration()[1]";
+   "L = int(round((shape[-2] * self.choose_acceleration()[0]))) if self.choose_acceleration()[0] < 1.0 else int(self.choose_acceleration()[0])";
+   "ACS = center_mask_func(N, L)"].
 Proof. reflexivity. Qed.
 Lemma g1d_bindings_pinned : g1d_bindings =
-  ["num_cols = shape[-2]"; "center_fraction, acceleration = self.choose_acceleration()";
-   "num_low_freqs = int(round(num_cols * center_fraction))"].
+  ["N = shape[-2]"; "R = self.choose_acceleration()[1]"; "L = int(round((shape[-2] * self.choose_acceleration()[0])))";
+   "ACS = center_mask_func(N, L)"; "kernel width = N"].
 Proof. reflexivity. Qed.
 Lemma g2d_bindings_pinned : g2d_bindings =
-  ["num_rows, num_cols = shape[-3:-1]"; "center_fraction, acceleration = self.choose_acceleration()";
-   "mask = centered_disk_mask((num_rows, num_cols), center_fraction)";
-   "mask = mask[np.newaxis].repeat(num_slc_or_time, axis=0)"; "mask = mask.squeeze()"].
+  ["M, N = shape[-3], shape[-2]"; "R = self.choose_acceleration()[1]";
+   "disc = centered_disk_mask((shape[-3], shape[-2]), self.choose_acceleration()[0])";
+   "L = disc.sum() (the frame's own copy in dynamic / multislice mode)"; "kernel grid = M x N"].
 Proof. reflexivity. Qed.
